@@ -21,7 +21,8 @@ EXPLANATION = (
     " (R14) match arms that panic (unreachable!) on a variant of a crate function's result are dead: the callee never constructs that variant."
     " (R15) no panicking std conversion (Duration::from_secs_f64/f32) is applied to a settings field; (R16) the cone clean-up keeps a cone only after the type-independent test nvars() != 0."
     " (R17) every checkpoint path returning Fail has set a terminal status or runs under status == InsufficientProgress."
-    " (R18) compute_barrier of every cone evaluates the barrier at (z + alpha dz, s + alpha ds), each component pairing a point with its own direction (a crossed component drives the exponential cone's Wright-omega evaluation out of its domain: panic); (R19) every scratch vector taken out of self with mem::take is stored back on every returning path.")
+    " (R18) compute_barrier of every cone evaluates the barrier at (z + alpha dz, s + alpha ds), each component pairing a point with its own direction (a crossed component drives the exponential cone's Wright-omega evaluation out of its domain: panic); (R19) every scratch vector taken out of self with mem::take is stored back on every returning path."
+    " (R20) the tolerance of the generalised power cone's exponent-sum check is positive for 1, 2, 3, 7 exponents (evaluated with integer semantics for usize operands).")
 ASSUMPTIONS = [
     'rustc MIR construction and trait resolution are correct',
     'iteration counter does not overflow u32 (max_iter is u32 and the loop stops at equality)',
@@ -958,6 +959,76 @@ def scratch_restored(rep, F, tag):
     R.guard(body)
 
 
+def _num_mixed(t, env):
+    """numeric value of a canonical text with Rust's integer semantics for usize operands (integer division truncates)"""
+    t = t.strip()
+    if t in env:
+        return env[t]
+    m = re.fullmatch(r'(\d+)_(usize|u32|u64|i32|i64)', t)
+    if m:
+        return int(m.group(1))
+    m = re.fullmatch(r'(-?\d+(?:\.\d+)?(?:e-?\d+)?)(f64|f32)?', t)
+    if m:
+        return float(m.group(1))
+    if t == 'one()':
+        return 1.0
+    if t == 'zero()':
+        return 0.0
+    if t == 'epsilon()':
+        return 2.220446049250313e-16
+    if '(' not in t:
+        raise ValueError(t)
+    nm = t[:t.index('(')].replace('withoverflow', '')
+    a = [_num_mixed(x, env) for x in split_args(t)]
+    if nm in ('as_T', 'clone', 'from', 'into'):
+        return float(a[0])
+    if nm == 'add':
+        return a[0] + a[1]
+    if nm == 'sub':
+        return a[0] - a[1]
+    if nm == 'mul':
+        return a[0] * a[1]
+    if nm == 'div':
+        return a[0] // a[1] if isinstance(a[0], int) and isinstance(a[1], int) else a[0] / a[1]
+    if nm == 'shr':
+        return a[0] >> a[1]
+    if nm in ('max', 'min'):
+        return max(a) if nm == 'max' else min(a)
+    raise ValueError(t)
+
+
+def genpow_sum_tolerance(rep, F, tag):
+    """A generalised power cone with exponents that sum to one exactly must be accepted for every length, 1 included: the tolerance of the sum check has to
+    be positive for len = 1, 2, 3 (an integer halving before the conversion to float makes it 0 for a single exponent: `|1 - 1| < 0' is false and the
+    constructor panics on a well-formed cone)."""
+    R = rep.rule('C04.R20', 'GenPowerConeData::new: the tolerance of the exponent-sum check is positive for every admissible number of exponents')
+
+    def body():
+        fs = [f for f in F.find(name='new') if 'GenPowerConeData' in (f.impl_self or '')]
+        if len(fs) != 1:
+            raise AnchorError('GenPowerConeData::new matched %d functions' % len(fs))
+        f = fs[0]
+        ks = set()
+        for val, ret, ev, tr in Walker(f, cut_loops=True, local_stores=True).leaves():
+            for k in val:
+                if 'sum(' in k and k.startswith(('lt(', 'le(')):
+                    ks.add(resolve_path_locals(f, k, tr))
+        if not R.check(len(ks) == 1, 'sum-test' + tag, 'exponent-sum tests found: %s' % sorted(k[:80] for k in ks), f.loc()):
+            return
+        k = list(ks)[0]
+        tol = split_args(k)[1]
+        for n_ in (1, 2, 3, 7):
+            try:
+                v = _num_mixed(tol, {'len(arg1)': n_, 'var:dim1': n_})
+            except (ValueError, ZeroDivisionError, TypeError) as ex:
+                R.bad('tolerance-evaluable' + tag, 'the tolerance %s of the exponent-sum check could not be evaluated (%r)' % (tol[:80], ex), f.loc())
+                return
+            R.check(v > 0, 'positive|len=%d%s' % (n_, tag), 'for %d exponent(s) the tolerance %s of the exponent-sum check evaluates to %r: an exact sum of one is rejected '
+                    '(strict `<`), the constructor panics on a well-formed cone' % (n_, tol[:80], v), f.loc())
+
+    R.guard(body)
+
+
 def run(ctx, rep, tier):
     for cfg in CONFIGS:
         F = ctx.facts(cfg)
@@ -980,6 +1051,7 @@ def run(ctx, rep, tier):
         empty_cones_dropped(rep, F, tag)
         fail_sets_status(rep, F, tag)
         scratch_restored(rep, F, tag)
+        genpow_sum_tolerance(rep, F, tag)
         from . import steplen
         steplen.barrier_trial_points(rep, F, tag, 'C04.R18')
         shared.status_provenance(rep, F, E, tag, 'C04.R12', statuses=('Solved',), full_fn='check_convergence_full', slot=9)
